@@ -68,7 +68,7 @@ def _cases() -> List[dict]:
 def plan(tier: str) -> dict:
     cases = _cases()
     return {
-        "runs": 12000 if tier == "quick" else 200000,
+        "runs": 12000 if tier == "quick" else 600000,
         "budget": 150 if tier == "quick" else 900,
         "cases": cases,
         "chunk": 40,
